@@ -75,6 +75,10 @@ def ser(v, depth=0) -> str:
                 except Exception:  # noqa: BLE001
                     pass
         return f"O {name} {len(items)}" + "".join(f" {k} {ser(x, depth + 1)}" for k, x in items)
+    if type(v).__name__ == "ParsedDataMap" and type(v).__module__.startswith("chartparse"):
+        # the map of lists as the embedding holds it: (key, list) pairs in insertion order; an entry with an empty list is an absent key
+        # (reading a missing key through `__getitem__` leaves such an entry behind — the embedding's values do not change when read)
+        return ser([(k, list(x)) for k, x in v._dict.items() if len(x)], depth)
     if hasattr(v, "__dict__") and type(v).__module__.startswith("chartparse"):
         items = [(k, x) for k, x in vars(v).items() if not k.startswith("__")]
         return f"O {type(v).__name__} {len(items)}" + "".join(f" {k} {ser(x, depth + 1)}" for k, x in items)
@@ -705,7 +709,42 @@ def cases_tracks(rng, n):
     return out
 
 
+def cases_parse_data(rng, n):
+    """the three `_parse_data_from_chart_lines`: the dispatcher call (types in their order, lines) and the map's `__getitem__` are recorded"""
+    import chartparse.track as ct
+    from chartparse.globalevents import GlobalEventsTrack
+    from chartparse.instrument import InstrumentTrack
+    from chartparse.sync import SyncTrack
+
+    from . import gen
+    out = []
+    prof = gen.Profile(max_tracks=2, max_groups=4, max_events=3, max_tempo=3, garbage=0.2, unknown_sections=0.0)
+    for _ in range(max(6, n // 6)):
+        src = gen.rand_src(rng, prof)
+        R = gen.render(src, rng, prof)
+        for tag, body in R.sections:
+            owner, name = {"SyncTrack": (SyncTrack, "syncParseData"), "Events": (GlobalEventsTrack, "globalEventsParseData"),
+                           "Song": (None, None)}.get(tag, (InstrumentTrack, "instrumentParseData"))
+            if owner is None:
+                continue
+            body = list(body)
+            rng.shuffle(body) if rng.random() < 0.2 else None
+            rec = Recorder()
+            try:
+                with rec.patch(ct, "parse_data_from_chart_lines", "chartparse.track.parse_data_from_chart_lines", lambda a, kw: [tuple(a[0]), a[1]]), \
+                        rec.patch(ct.ParsedDataMap, "__getitem__", ".__getitem__", lambda a, kw: [a[0], a[1]]):
+                    real = show_result(owner._parse_data_from_chart_lines, body)
+            except Unserialisable:
+                continue
+            if rec.ok:
+                out.append((request(name, [owner, body], rec.log), real, name))
+    return out
+
+
 GENERATORS = {
+    "instrumentParseData": cases_parse_data,
+    "syncParseData": cases_parse_data,
+    "globalEventsParseData": cases_parse_data,
     "instrumentFromChartLines": cases_tracks,
     "syncFromChartLines": cases_tracks,
     "globalEventsFromChartLines": cases_tracks,
